@@ -102,7 +102,9 @@ func evalC11(k c11Case) []pbt.Violation {
 		}
 	}
 	if drv, lib := os.Getenv("VERIF_LIBDRIVER"), os.Getenv("VERIF_LIB"); drv != "" && lib != "" {
-		check("clib", cli.Run(dir, 120*time.Second, nil, nil, drv, lib, in))
+		// three calls on the same text in one process, each result freed by the caller as the
+		// header demands
+		check("clib", cli.Run(dir, 120*time.Second, nil, nil, drv, lib, in, in, in))
 	}
 	return vs
 }
